@@ -818,9 +818,20 @@ def lit_value(e):
     raise RefUnsupported(f"literal {v!r}")
 
 
+def map_to_case(e):
+    """x.map({k: v, (k1, k2): w}, default=d) is the case expression when(x.is_in(k)).then(v)...otherwise(d or x)."""
+    cases = []
+    for key, val in e["m"]:
+        keys = key if isinstance(key, list) else [key]
+        cases.append([{"k": "fn", "op": "is_in", "a": [e["e"], *keys]}, val])
+    return {"k": "case", "cases": cases, "default": e.get("default") if e.get("default") is not None else e["e"]}
+
+
 def eval_rows(e, ctx: Ctx, n: int, under_fn=False) -> Vec:
     """Evaluate in row space (length n)."""
     k = e["k"]
+    if k == "map":
+        return eval_rows(map_to_case(e), ctx, n, under_fn)
     if k == "lit":
         fam, v = lit_value(e)
         return Vec(fam, [v] * n, const=True)
@@ -1081,6 +1092,8 @@ def eval_groups(e, ctx: Ctx, groups: list[list[int]], n: int) -> Vec:
     """Evaluate in group space for `summarize` (one value per group)."""
     g = len(groups)
     k = e["k"]
+    if k == "map":
+        return eval_groups(map_to_case(e), ctx, groups, n)
     if k == "lit":
         fam, v = lit_value(e)
         return Vec(fam, [v] * g, const=True)
